@@ -57,6 +57,10 @@ pub fn features() -> Vec<(&'static str, Box<dyn Fn(&mut Model) -> bool + Sync>)>
     v.push(("port", Box::new(|m| { m.port = Some(8080); true })));
     v.push(("threads", Box::new(|m| { m.threads = Some(4); true })));
     v.push(("timeout", Box::new(|m| { m.timeout = Some(5); true })));
+    // the smallest values that are still valid / still mean something
+    v.push(("threads-1", Box::new(|m| { if m.threads.is_some() { return false; } m.threads = Some(1); true })));
+    v.push(("timeout-1", Box::new(|m| { if m.timeout.is_some() { return false; } m.timeout = Some(1); true })));
+    v.push(("port-max", Box::new(|m| { if m.port.is_some() { return false; } m.port = Some(65535); true })));
     v.push(("websocket", Box::new(|m| { m.websocket = Some("localhost:1234".into()); true })));
     v.push(("blacklist-file", Box::new(|m| { m.blacklist = Some(vec!["203.0.113.9", "2001:db8::1"]); true })));
     v.push(("blacklist-mode", Box::new(|m| { m.blacklist_mode = Some("forbidden"); true })));
@@ -206,19 +210,25 @@ pub struct Layout {
     pub reversed: bool,
     /// 0 = single file; 1 = the k-th inner section is moved to an included file; 2 = ... whose body is included again
     pub include_depth: u8,
+    /// what separates a key from its value and a section keyword from its name
+    pub sep: &'static str,
 }
 
 pub fn layouts() -> Vec<Layout> {
     let mut v = vec![];
     for (indent, comments, blank) in [("", 0u8, false), ("  ", 0, false), ("\t", 0, false), ("  ", 1, true), ("    ", 2, false), ("\t", 2, true)] {
-        v.push(Layout { indent, comments, blank_lines: blank, reversed: false, include_depth: 0 });
+        v.push(Layout { indent, comments, blank_lines: blank, reversed: false, include_depth: 0, sep: " " });
     }
-    v.push(Layout { indent: "  ", comments: 0, blank_lines: false, reversed: true, include_depth: 0 });
-    v.push(Layout { indent: "\t", comments: 1, blank_lines: true, reversed: true, include_depth: 0 });
-    v.push(Layout { indent: "  ", comments: 0, blank_lines: false, reversed: false, include_depth: 1 });
-    v.push(Layout { indent: "  ", comments: 2, blank_lines: true, reversed: false, include_depth: 1 });
-    v.push(Layout { indent: "  ", comments: 0, blank_lines: false, reversed: false, include_depth: 2 });
-    v.push(Layout { indent: "", comments: 1, blank_lines: false, reversed: true, include_depth: 2 });
+    v.push(Layout { indent: "  ", comments: 0, blank_lines: false, reversed: true, include_depth: 0, sep: " " });
+    v.push(Layout { indent: "\t", comments: 1, blank_lines: true, reversed: true, include_depth: 0, sep: " " });
+    v.push(Layout { indent: "  ", comments: 0, blank_lines: false, reversed: false, include_depth: 1, sep: " " });
+    v.push(Layout { indent: "  ", comments: 2, blank_lines: true, reversed: false, include_depth: 1, sep: " " });
+    v.push(Layout { indent: "  ", comments: 0, blank_lines: false, reversed: false, include_depth: 2, sep: " " });
+    v.push(Layout { indent: "", comments: 1, blank_lines: false, reversed: true, include_depth: 2, sep: " " });
+    // several spaces between key and value and between a section keyword and its name (the documentation's own
+    // example aligns values in columns)
+    v.push(Layout { indent: "  ", comments: 0, blank_lines: false, reversed: false, include_depth: 0, sep: "   " });
+    v.push(Layout { indent: "  ", comments: 2, blank_lines: false, reversed: false, include_depth: 1, sep: "  " });
     v
 }
 
@@ -230,9 +240,9 @@ fn render_into(out: &mut String, items: &[Item], depth: usize, l: &Layout) {
         }
         let trail = if l.comments == 2 { " # trailing comment" } else { "" };
         match it {
-            Item::Kv(k, v) => out.push_str(&format!("{}{} {}{}\n", pad, k, v, trail)),
+            Item::Kv(k, v) => out.push_str(&format!("{}{}{}{}{}\n", pad, k, l.sep, v, trail)),
             Item::Section(h, body) => {
-                out.push_str(&format!("{}{} {{{}\n", pad, h, trail));
+                out.push_str(&format!("{}{} {{{}\n", pad, h.replacen(' ', l.sep, 1), trail));
                 render_into(out, body, depth + 1, l);
                 out.push_str(&format!("{}}}{}\n", pad, trail));
             }
@@ -354,6 +364,15 @@ pub fn mismatch(m: &Model, c: &Config) -> Option<String> {
         }
         if let Some(e) = cmp_routes(format!("host #{}", i), &h.routes, routes) {
             return Some(e);
+        }
+    }
+    // the accessor the server's route wiring uses: host 0 is the default host, host k the k-th host section
+    for (hi, routes) in std::iter::once(&c.default_host.routes).chain(c.hosts.iter().map(|h| &h.routes)).enumerate() {
+        for (ri, want) in routes.iter().enumerate() {
+            let got = std::panic::catch_unwind(std::panic::AssertUnwindSafe(|| c.get_route(hi, ri).matches.clone()));
+            if got.as_ref().ok() != Some(&want.matches) || !std::ptr::eq(c.get_route(hi, ri), want) {
+                return Some(format!("get_route({}, {}): got {:?}, expected the route {:?} of that host", hi, ri, got.ok(), want.matches));
+            }
         }
     }
     None
@@ -534,24 +553,22 @@ fn nonascii(s: &mut Stats, names: &[&str], main: &str) {
 pub fn run(mut cx: Ctx) -> ! {
     cx.rule = "every subset of <= 2 (3) features from a 35-entry menu (address, port, threads, timeout, websocket, blacklist file/mode, log level/console/file, cache size in 6 spellings, cache time, hosts quoted/unquoted/empty, routes of all five types incl. multi-pattern, proxy target lists, balancer modes) is rendered in 12 layouts (indentation, comment placement, blank lines, reversed key/section order, sections moved to included files at depth 1 and 2) and loaded with parse_conf + Config::from_tree; the result is compared with the model field by field; every single-fault mutant of every line of three layouts (missing brace, missing value, abc for a number, nonexistent unit, unterminated quote, bad enum word, not a boolean, port/threads out of range), in the main and in included files, must be rejected, naming file and line for syntax faults; a 2-byte and a 4-byte character are inserted at every position (no panic); states = models, transitions = loads; non-trivial = models with >= 2 features and all fault mutants".into();
     let feats = features();
-    let k = cx.pick(3, 5);
+    let k = cx.pick(3, 4);
     cx.bound("features_per_model", k);
+    // every subset of at most k features (index-increasing)
     let mut combos: Vec<Vec<usize>> = vec![vec![]];
-    for a in 0..feats.len() {
-        combos.push(vec![a]);
-        for b in a + 1..feats.len() {
-            combos.push(vec![a, b]);
-            if k >= 3 {
-                for c in b + 1..feats.len() {
-                    combos.push(vec![a, b, c]);
-                    if k >= 4 {
-                        for d in c + 1..feats.len() {
-                            combos.push(vec![a, b, c, d]);
-                        }
-                    }
-                }
+    let mut frontier: Vec<Vec<usize>> = vec![vec![]];
+    for _ in 0..k {
+        let mut next = vec![];
+        for c in &frontier {
+            for i in c.last().map_or(0, |l| l + 1)..feats.len() {
+                let mut n = c.clone();
+                n.push(i);
+                next.push(n);
             }
         }
+        combos.extend(next.iter().cloned());
+        frontier = next;
     }
     // a full-featured model as well
     combos.push((0..feats.len()).collect());
